@@ -1399,7 +1399,12 @@ def user_case(ck, k, c, ls, mblocks, strip, replay_of, crash):
                     else:
                         ck.count("oracle:objective values differ on a modified / wild LP")
             elif {int(sa["status"]), int(sb["status"])} <= {ST_OPTIMAL, ST_UNBOUNDED, ST_INFEASIBLE} and sa["status"] != sb["status"]:
-                if benign_first:
+                if benign_first and int(sb["status"]) == ST_OPTIMAL and not badB:
+                    # the SCALED object returns OPTIMAL with a solution that satisfies every defining relation on the user's LP; it is the
+                    # unscaled twin (no scaler on an LP whose entries span many binary orders of magnitude) that misjudges: not a scaling leak
+                    # (a wrong verdict of an unscaled solve belongs to C01 / C02)
+                    ck.count("oracle:unscaled twin misjudges a badly scaled LP (scaled answer verified)")
+                elif benign_first:
                     ck.violation("solution:status-differs", "definite but different verdicts on a benign LP: %s (unscaled) vs %s (scaled) after step %d (scaler %s)"
                                  % (sa["status"], sb["status"], opi, SCALER_NAMES[c["scaler"]]), dict(rp, lp=lp_line(lp), unscaled=s["AS"], scaled=s["BS"]))
                 else:
